@@ -95,6 +95,27 @@ func Persist(seg segment.Segment, tag string) (string, error) {
 	return path, sb.Persist(path)
 }
 
+// PersistReserved is Persist onto a destination that already exists as an EMPTY file (a name
+// reserved beforehand, as os.CreateTemp does) when reserved is set.
+func PersistReserved(seg segment.Segment, tag string, reserved bool) (string, error) {
+	sb, ok := seg.(*zap.SegmentBase)
+	if !ok {
+		return "", fmt.Errorf("not an in-memory segment: %T", seg)
+	}
+	path := NewPath(tag)
+	if reserved {
+		Reserve(path)
+	}
+	return path, sb.Persist(path)
+}
+
+// Reserve creates path as an empty file.
+func Reserve(path string) {
+	if f, err := os.OpenFile(path, os.O_CREATE|os.O_WRONLY|os.O_EXCL, 0o600); err == nil {
+		f.Close()
+	}
+}
+
 func Open(path string) (segment.Segment, error) { return Plugin.Open(path) }
 
 // Bitmap converts a DropSpec.
@@ -188,7 +209,9 @@ func (r *PlanResult) run(p *spec.MergePlan) (segment.Segment, string, [][]uint64
 			r.toClose = append(r.toClose, seg)
 			return seg, "", nil, size, nil
 		}
-		path, err := Persist(seg, "leaf")
+		// every other shape of leaf is written onto a reserved (empty, existing) name - a pure
+		// function of the plan, so that case files replay identically
+		path, err := PersistReserved(seg, "leaf", len(p.Leaf.Docs)%2 == 1)
 		seg.Close()
 		if err != nil {
 			return nil, "", nil, 0, fmt.Errorf("persist leaf: %w", err)
@@ -214,6 +237,9 @@ func (r *PlanResult) run(p *spec.MergePlan) (segment.Segment, string, [][]uint64
 		}
 	}
 	path := NewPath("merge")
+	if len(p.Children)%2 == 0 {
+		Reserve(path)
+	}
 	nums, size, err := Merge(segs, drops, path, p.ChunkMode, nil, nil)
 	if err != nil {
 		return nil, "", nil, 0, fmt.Errorf("merge: %w", err)
